@@ -81,6 +81,9 @@ func (C02) Gen(rt *rapid.T, tier string) any {
 	if pick(rt, 2000, "eggbomb") < 3 && os.Getenv("VERIF_X_ONLY") == "" || os.Getenv("VERIF_X_ONLY") == "eggbomb" {
 		kind = "eggbomb"
 	}
+	if pick(rt, 2000, "propchain") < 3 && os.Getenv("VERIF_X_ONLY") == "" || os.Getenv("VERIF_X_ONLY") == "propchain" {
+		kind = "propchain"
+	}
 	if chance(rt, 2, "workspace") && os.Getenv("VERIF_X_ONLY") == "" || os.Getenv("VERIF_X_ONLY") == "workspace" {
 		kind = "workspace"
 	}
@@ -186,6 +189,26 @@ func (C02) Gen(rt *rapid.T, tier string) any {
 			}
 			if p.add(FileSpec{Path: oneOf(rt, []string{"etc/os-release", "etc/os-release", "usr/lib/os-release"}, "osr.path"), Src: src, CorruptFifo: fifo}) {
 				victim = len(p.files) - 1
+			}
+		}
+	case "propchain":
+		// structured text input: a pom.xml whose properties are defined in terms of each other, every
+		// level using the next one twice (expansion doubles per level)
+		if has(enabled, "java/pomxml") {
+			i := p.next
+			p.next++
+			n := oneOf(rt, []int{10, 16, 20, 22, 24}, "pc.depth")
+			var sb strings.Builder
+			sb.WriteString("<project>\n <modelVersion>4.0.0</modelVersion>\n <groupId>g</groupId>\n <artifactId>a</artifactId>\n <version>1</version>\n <properties>\n")
+			for k := 0; k < n; k++ {
+				fmt.Fprintf(&sb, "  <p%d>${p%d}${p%d}</p%d>\n", k, k+1, k+1, k)
+			}
+			fmt.Fprintf(&sb, "  <p%d>x</p%d>\n </properties>\n <dependencies>\n  <dependency><groupId>d</groupId><artifactId>e</artifactId><version>${p0}</version></dependency>\n </dependencies>\n</project>\n", n, n)
+			d := inst(drawDir(rt, "pc.dir", true), "", i, "")
+			if p.add(FileSpec{Path: d + "/pom.xml", Src: Src{Text: sb.String()}}) {
+				victim = len(p.files) - 1
+				p.dirs[d] = true
+				avoid["java/pomxml"] = true
 			}
 		}
 	case "workspace":
@@ -394,6 +417,8 @@ func (C02) Gen(rt *rapid.T, tier string) any {
 			}
 			if len(sib) > 0 {
 				victim = sib[pick(rt, len(sib), "sib")]
+				// the companion (go.sum, _locales/*/message.json) replaced by a named pipe nobody writes to
+				p.files[victim].CorruptFifo = chance(rt, 25, "sib.fifo")
 			}
 		}
 		if kind == "osrelease" {
@@ -445,7 +470,7 @@ func (C02) Gen(rt *rapid.T, tier string) any {
 	}
 	if !v.Src.HasOps() && (kind != "include" || rapid.Bool().Draw(rt, "incops")) && kind != "foreign" && (kind != "zipbomb" || rapid.Bool().Draw(rt, "zbops")) &&
 		kind != "symlink" && (kind != "nostat" || rapid.Bool().Draw(rt, "nsops")) && !v.CorruptFifo &&
-		kind != "companion-fault" && (kind != "workspace" || chance(rt, 30, "wsops")) && ((kind != "elfbomb" && kind != "containerd-graph" && kind != "eggbomb") || chance(rt, 20, "structops")) {
+		kind != "companion-fault" && (kind != "workspace" || chance(rt, 30, "wsops")) && kind != "propchain" && ((kind != "elfbomb" && kind != "containerd-graph" && kind != "eggbomb") || chance(rt, 20, "structops")) {
 		v.Src.Ops = genOps(rt, vb, "op")
 	}
 	if kind == "foreign" && rapid.Bool().Draw(rt, "fops") {
@@ -532,7 +557,11 @@ func genInclude(rt *rapid.T, p *placer) int {
 		p.add(FileSpec{Path: d + "/" + names[k], Group: g, Src: src})
 	}
 	p.dirs[d] = true
-	return first + pick(rt, len(p.files)-first, "inc.victim")
+	v := first + pick(rt, len(p.files)-first, "inc.victim")
+	if v > first {
+		p.files[v].CorruptFifo = chance(rt, 15, "inc.fifo") // an included file that is a named pipe
+	}
+	return v
 }
 
 func sortedKeys[V any](m map[string]V) []string {
